@@ -1,7 +1,7 @@
 (* C04 — property theorems only (every proof is `exact <lemma>` or a closed computation). *)
 From Coq Require Import List NArith ZArith Bool.
 Import ListNotations.
-From VF Require Import C04.Model C04.Inst C04.Proofs C04.ProofsSvc gen.Gen_C04.
+From VF Require Import C04.Model C04.Inst C04.Proofs C04.ProofsSvc C04.ProofsAead gen.Gen_C04.
 Local Open Scope N_scope.
 
 (* ===== codecs (all inputs) ===== *)
@@ -130,6 +130,50 @@ Theorem encrypt_layout_split_join :
 Proof. exact encrypt_layout. Qed.
 Print Assumptions encrypt_layout_split_join.
 
+(* ===== AEAD over keysets with several keys (rotation) ===== *)
+(* Ideal AEAD core as visible hypotheses (decryption inverts encryption; what decrypts was produced; a body binds key,
+   nonce, aad and message).  `homogeneous p t` = one primitive and one prefix type, which is what Create(kt) followed by
+   any number of Rotate(kt) produces; keysets mixing key types are exercised against the real service but not proved. *)
+Theorem aead_roundtrip_multi :
+  forall (raw_enc : N -> bytes -> bytes -> bytes -> bytes) (raw_dec : N -> bytes -> bytes -> bytes -> option bytes),
+  (forall k n a m, raw_dec k n a (raw_enc k n a m) = Some m) ->
+  (forall k n a c m, raw_dec k n a c = Some m -> c = raw_enc k n a m) ->
+  (forall k n a m k' n' a' m', raw_enc k n a m = raw_enc k' n' a' m' -> k = k' /\ n = n' /\ a = a' /\ m = m') ->
+  forall (p : prim) (t : ptype) (ks ks' : keyset) (e : entry) (nonce a m c n : bytes),
+  primary ks = Some e -> e_prim e = p -> length nonce = real_iv p ->
+  homogeneous p t (ks_entries ks') -> In e (ks_entries ks') ->
+  svc_encrypt raw_enc ks nonce a m = Some (c, n) ->
+  svc_decrypt raw_dec ks' c a n = Some m.
+Proof. intros re rd H1 H2 H3. exact (aead_roundtrip_multi_l re rd H1 H2 H3). Qed.
+Print Assumptions aead_roundtrip_multi.
+
+(* whatever Decrypt accepts (any number of keys in the keyset) is exactly a body produced under one of ITS keys with
+   exactly this nonce and this aad *)
+Theorem aead_accepts_only_produced :
+  forall (raw_enc : N -> bytes -> bytes -> bytes -> bytes) (raw_dec : N -> bytes -> bytes -> bytes -> option bytes),
+  (forall k n a m, raw_dec k n a (raw_enc k n a m) = Some m) ->
+  (forall k n a c m, raw_dec k n a c = Some m -> c = raw_enc k n a m) ->
+  (forall k n a m k' n' a' m', raw_enc k n a m = raw_enc k' n' a' m' -> k = k' /\ n = n' /\ a = a' /\ m = m') ->
+  forall (p : prim) (t : ptype) (ks : keyset) (a n c m : bytes),
+  homogeneous p t (ks_entries ks) -> length n = real_iv p ->
+  svc_decrypt raw_dec ks c a n = Some m ->
+  exists e, In e (ks_entries ks) /\ c = raw_enc (e_mat e) n a m.
+Proof. intros re rd H1 H2 H3. exact (decrypt_accepts_only_produced_l re rd H1 H2 H3). Qed.
+Print Assumptions aead_accepts_only_produced.
+
+(* the genuine ciphertext with an altered nonce, altered associated data, or under a keyset without the key: rejected *)
+Theorem aead_altered_or_other_key_rejected :
+  forall (raw_enc : N -> bytes -> bytes -> bytes -> bytes) (raw_dec : N -> bytes -> bytes -> bytes -> option bytes),
+  (forall k n a m, raw_dec k n a (raw_enc k n a m) = Some m) ->
+  (forall k n a c m, raw_dec k n a c = Some m -> c = raw_enc k n a m) ->
+  (forall k n a m k' n' a' m', raw_enc k n a m = raw_enc k' n' a' m' -> k = k' /\ n = n' /\ a = a' /\ m = m') ->
+  forall (p : prim) (t : ptype) (ks' : keyset) (k : N) (n a m n' a' : bytes),
+  homogeneous p t (ks_entries ks') -> length n' = real_iv p ->
+  (n' <> n \/ a' <> a \/ ~ In k (map e_mat (ks_entries ks'))) ->
+  svc_decrypt raw_dec ks' (raw_enc k n a m) a' n' = None.
+Proof. intros re rd H1 H2 H3. exact (aead_altered_rejected_l re rd H1 H2 H3). Qed.
+Print Assumptions aead_altered_or_other_key_rejected.
+
 (* ===== non-vacuity ===== *)
 Example p1363_leading_zero_66 :
   let r := 5 in let s := 256 ^ 65 + 9 in
@@ -165,3 +209,19 @@ Example sign_verify_export_nonvacuous :
   | None => False
   end.
 Proof. vm_compute. repeat split. Qed.
+
+Example aead_instance_and_rotation :
+  (forall k n a m, inst_dec k n a (inst_enc k n a m) = Some m) /\
+  (forall k n a c m, inst_dec k n a c = Some m -> c = inst_enc k n a m) /\
+  (forall k n a m k' n' a' m', inst_enc k n a m = inst_enc k' n' a' m' -> k = k' /\ n = n' /\ a = a' /\ m = m') /\
+  (let e1 := {| e_id := 1111; e_pt := PTink; e_prim := PGcm; e_mat := 1 |} in
+   let e2 := {| e_id := 2222; e_pt := PTink; e_prim := PGcm; e_mat := 2 |} in
+   let old := {| ks_entries := [e1]; ks_primary := 0 |} in
+   let rot := {| ks_entries := [e1; e2]; ks_primary := 1 |} in
+   let nonce := [1;2;3;4;5;6;7;8;9;10;11;12] in
+   match svc_encrypt inst_enc old nonce [7] [42; 43] with
+   | Some (c, n) => svc_decrypt inst_dec rot c [7] n = Some [42; 43] /\ svc_decrypt inst_dec rot c [8] n = None /\
+                    svc_decrypt inst_dec {| ks_entries := [e2]; ks_primary := 0 |} c [7] n = None
+   | None => False
+   end).
+Proof. split; [exact inst_dec_enc|]. split; [exact inst_auth|]. split; [exact inst_bind|]. vm_compute. repeat split. Qed.
